@@ -501,6 +501,7 @@ def trace_summary(trace, limit=60):
             fn = s.get("sourceLocation", {}).get("function", "")
             if s.get("assignmentType") == "actual-parameter" or lhs.startswith("g.") \
                     or lhs.startswith("return_value_") or fn in ("harness", "any_process") \
+                    or (fn in specs.ALL_FUNCTIONS and not lhs.startswith("__")) \
                     or "->" in lhs or lhs.startswith("dynamic_object"):
                 lines.append("  %s = %s" % (lhs, s.get("value", {}).get("data")))
         elif st == "failure":
@@ -820,6 +821,7 @@ def cmd_harness(args):
     names = []
     defs = []
     explain = []
+    brief = False
     i = 0
     while i < len(args):
         if args[i] == "--tier":
@@ -827,6 +829,9 @@ def cmd_harness(args):
             i += 2
         elif args[i].startswith("-D"):
             defs.append(args[i])
+            i += 1
+        elif args[i] == "--brief":
+            brief = True
             i += 1
         elif args[i] == "--explain":
             explain.append(args[i + 1])
@@ -857,6 +862,8 @@ def cmd_harness(args):
         for ob in r.obligations:
             if ob["status"] == "UNKNOWN":
                 continue
+            if brief and (ob["status"] == "SUCCESS" or (ob["label"] or "").startswith(("canary/", "reach/"))):
+                continue
             if ob["label"] or ob["status"] != "SUCCESS":
                 print("   %-8s %-55s %s %s:%s" % (ob["status"], ob["label"] or ob["id"], ob["cls"],
                                                    os.path.basename(ob["file"]), ob["line"]))
@@ -869,7 +876,7 @@ def cmd_harness(args):
                     for o in tr.obligations:
                         if o["id"] == ob["id"] and "trace" in o:
                             print("---- counterexample for %s (%s)" % (lab, ob["id"]))
-                            print("\n".join(trace_summary(o["trace"], 400)))
+                            print("\n".join(trace_summary(o["trace"], 1000000)))
                     break
     return rc
 
